@@ -1519,6 +1519,9 @@ func addReplace(syntax *FileSyntax, replace *[]*Replace, oldPath, oldVers, newPa
 		if r.Old.Path == oldPath && (oldVers == "" || r.Old.Version == oldVers) {
 			if need {
 				// Found replacement for old; update to use new.
+				// The line is rewritten with the requested old version
+				// (possibly the wildcard), so r.Old must follow it.
+				r.Old = old
 				r.New = new
 				syntax.updateLine(r.Syntax, tokens...)
 				need = false
